@@ -95,6 +95,8 @@ where
         }
     };
 
+    #[cfg(rustfmt_verif)]
+    crate::verif::ev_emit(filename, original_text.as_str(), formatted_text);
     let formatted_file = emitter::FormattedFile {
         filename,
         original_text: original_text.as_str(),
